@@ -6,6 +6,7 @@ import (
 	"go/token"
 	"go/types"
 	"os"
+	"sort"
 	"strings"
 
 	"golang.org/x/tools/go/ssa"
@@ -344,7 +345,7 @@ func (fr *Frame) preludeCall(st *State, name string, fn *ssa.Function, args []Va
 		canonX := Subst(canon, map[string]*Term{xb.Name: Select(lg, Sub(hi, IntLit(1)))})
 		// named by the predicate's meaning (its term over x and the abstracted state), not by the closure that wrote it:
 		// the same predicate in an invariant and in a postcondition is the same counting function
-		uf = fmt.Sprintf("cnt_%s_%x", sanitize(typeKey(elem)), hashString(Subst(canon, map[string]*Term{xb.Name: V("x!cnt", es)}).String()))
+		uf = fmt.Sprintf("cnt_%s_%x", sanitize(typeKey(elem)), hashString(alphaKey(Subst(canon, map[string]*Term{xb.Name: V("x!cnt", es)}))))
 		mkApp := func(l, a, b *Term, ex2 []*Term) *Term {
 			return ex.ctx.UF(uf, SInt, append([]*Term{l, a, b}, ex2...)...)
 		}
@@ -780,6 +781,23 @@ func (fr *Frame) resolveLoopVar(st *State, li *loopInfo, name string) (Val, bool
 			return fr.regs[phi], true
 		}
 	}
+	// a header phi of an enclosing loop (e.g. the range index of the outer loop, seen from an inner one)
+	for _, b := range fr.fn.Blocks {
+		if b == li.header || !b.Dominates(li.header) {
+			continue
+		}
+		for _, in := range b.Instrs {
+			phi, ok := in.(*ssa.Phi)
+			if !ok {
+				break
+			}
+			if phi.Comment == name {
+				if v, have := fr.regs[phi]; have {
+					return v, true
+				}
+			}
+		}
+	}
 	// a value defined outside (dominating) the loop, found through debug refs
 	var best ssa.Value
 	var bestAddr bool
@@ -1044,4 +1062,38 @@ func logCounterOf(comp string) string {
 		return "LogN_" + name
 	}
 	return ""
+}
+
+// alphaKey prints a term with the variables bound inside it renamed in order of binding, so that two copies of the
+// same predicate (whose inner quantifiers got different fresh names) have the same key.
+func alphaKey(t *Term) string {
+	var names []string
+	seen := map[string]bool{}
+	var walk func(t *Term)
+	walk = func(t *Term) {
+		for _, b := range t.Bound {
+			if !seen[b.Name] {
+				seen[b.Name] = true
+				names = append(names, b.Name)
+			}
+		}
+		for _, a := range t.Args {
+			walk(a)
+		}
+	}
+	walk(t)
+	s := t.String()
+	if len(names) == 0 {
+		return s
+	}
+	idx := map[string]int{}
+	for i, n := range names {
+		idx[n] = i
+	}
+	sorted := append([]string(nil), names...)
+	sort.Slice(sorted, func(i, j int) bool { return len(sorted[i]) > len(sorted[j]) })
+	for _, n := range sorted {
+		s = strings.ReplaceAll(s, n, fmt.Sprintf("\x00%d\x01", idx[n]))
+	}
+	return s
 }
